@@ -377,7 +377,8 @@ def run(plan, ctx):
             for sl in st["probe"]:
                 bump("probe_slot:" + sl)
         a, b = _cmp_keys(ev), _cmp_keys(pev)
-        if fk == "io" and bool(ev.get("fired")) != bool(pev.get("fired")):
+        if fk == "io" and fault.get("what") not in ("tear", "flip") and \
+                bool(ev.get("fired")) != bool(pev.get("fired")):
             # the fault reached only one of the two processes (e.g. the history process did not
             # read the file again because a correct, validated cache served it): the two
             # executions did not meet the same environment, so there is nothing to compare
@@ -429,12 +430,14 @@ def effectiveness(total, tier):
 def describe():
     return {
         "rule": "plans are drawn by a seeded PRNG (swarm configuration, scripts, history of 2-12 "
-                "load/loads calls with planted failures, I/O faults, interruptions, environment "
-                "changes, API calls and mutations, then two sentinel loads); a history is distinct "
+                "load/loads calls with planted failures, file-read faults, interruptions, exceptions "
+                "kept in garbage cycles with the collector run at a seeded line of a later load, "
+                "environment changes, API calls and mutations, then two sentinel loads); a history is distinct "
                 "by the digest of its plan and non-trivial when it contains at least one failed or "
                 "faulted load followed by at least one compared fault-free load",
         "components": {"real": ["blackbird (working tree)", "antlr4 runtime", "sympy", "numpy",
                                 "kernel file system (tmpfs)", "os.chdir/open", "fork()ed processes"],
-                       "stubs": [], "interposers": ["builtins.open wrapper (fault injection only)",
-                                                     "sys.settrace line tracer (interruptions only)"]},
+                       "stubs": [], "interposers": ["builtins.open wrapper (errno and short-read faults only)",
+                                                     "rewrite + restore of simulated files around a load (torn / flipped content)",
+                                                     "sys.settrace line tracer (interruptions and seeded collector runs only)"]},
     }
